@@ -12,12 +12,13 @@ Clones1 == <<"k1">>
 Clones2 == <<"k1", "k2">>
 Clones3 == <<"k1", "k2", "k3">>
 
-SendersJson == IF senders = NoEntry THEN [ctr |-> None, sess |-> None, val |-> -1]
-               ELSE [ctr |-> senders.ctr, sess |-> senders.sess, val |-> ctr[senders.ctr]]
+SendersJson == IF senders = NoEntry THEN [ctr |-> None, sess |-> None, val |-> -1, locked |-> FALSE]
+               ELSE [ctr |-> senders.ctr, sess |-> senders.sess, val |-> ctr[senders.ctr],
+                     locked |-> (cmutex[senders.ctr] # None)]
 
 \* observable state after a step: what the harness compares with the real Gossip / probe actor
 StateJson ==
-    [pc |-> pc, hst |-> hst, hctr |-> hctr, hsess |-> hsess, ctr |-> ctr,
+    [pc |-> pc, hst |-> hst, hctr |-> hctr, hsess |-> hsess, ctr |-> ctr, cmutex |-> cmutex,
      senders |-> SendersJson, readers |-> readers, writer |-> writer,
      mailbox |-> mailbox, session |-> session, orphans |-> orphans]
 
@@ -27,6 +28,8 @@ MCInit == Init /\ hist = <<>>
 
 \* one named wrapper per action (TLC reports coverage per name)
 DoReadSenders(s) == ReadSenders(s) /\ Log("ReadSenders", s, "")
+DoResumeRead(s) == ResumeRead(s) /\ Log("ResumeRead", s, "")
+DoResumeWrite(s) == ResumeWrite(s) /\ Log("ResumeWrite", s, "")
 DoCloneGuard(s) == CloneGuard(s) /\ Log("CloneGuard", s, "")
 DoAcquireWrite(s) == AcquireWrite(s) /\ Log("AcquireWrite", s, "")
 DoCallSubscribe(s) == CallSubscribe(s) /\ Log("CallSubscribe", s, "")
@@ -39,6 +42,8 @@ DoCloneHandle(h, k) == CloneHandle(h, k) /\ Log("CloneHandle", h, k)
 
 MCNext ==
     \/ \E s \in Proc : DoReadSenders(s)
+    \/ \E s \in Proc : DoResumeRead(s)
+    \/ \E s \in Proc : DoResumeWrite(s)
     \/ \E s \in Proc : DoCloneGuard(s)
     \/ \E s \in Proc : DoAcquireWrite(s)
     \/ \E s \in Proc : DoCallSubscribe(s)
